@@ -2,6 +2,7 @@
 """Sharded execution.  Hypothesis and the byte mutators are single-core; a check splits its work
 into shards (function + json-able argument), each shard gets its own derived seed, and the partial
 Stats are merged in shard order so the merged result does not depend on scheduling."""
+import concurrent.futures
 import multiprocessing
 import os
 import time
@@ -40,13 +41,23 @@ def run_shards(func, args, nproc=None):
                 raise HarnessError('shard %d failed:\n%s' % (index, err))
             results[index] = stats
     else:
+        # an executor, not multiprocessing.Pool: a worker that dies (killed, crashed interpreter) breaks the executor
+        # and is reported as a harness error, whereas Pool would wait for the lost task forever
         ctx = multiprocessing.get_context('fork')
-        with ctx.Pool(min(nproc, len(jobs)), maxtasksperchild=None) as pool:
-            for index, stats, err in pool.imap_unordered(_call, jobs, chunksize=1):
-                if err:
-                    pool.terminate()
-                    raise HarnessError('shard %d failed:\n%s' % (index, err))
-                results[index] = stats
+        with concurrent.futures.ProcessPoolExecutor(max_workers=min(nproc, len(jobs)), mp_context=ctx) as executor:
+            futures = [executor.submit(_call, job) for job in jobs]
+            try:
+                for future in concurrent.futures.as_completed(futures):
+                    index, stats, err = future.result()
+                    if err:
+                        raise HarnessError('shard %d failed:\n%s' % (index, err))
+                    results[index] = stats
+            except BaseException:
+                for future in futures:
+                    future.cancel()
+                for process in list(getattr(executor, '_processes', {}).values()):
+                    process.terminate()
+                raise
     merged = Stats()
     for stats in results:
         merged.merge(stats)
